@@ -49,7 +49,7 @@ func TestC20_Engine(t *testing.T) {
 	rec.RequireShare("fallback-path", 0.03)
 	rec.RequireShare("non-ascii-respelling", 0.08)
 	rapid.Check(t, func(t *rapid.T) {
-		cmds, cls := gen.DB(t, gen.CmdOpts{Platforms: true, Unicode: rapid.IntRange(0, 2).Draw(t, "u") == 0}, []int{0, 1, 3, 10, 1})
+		cmds, cls := gen.DB(t, gen.CmdOpts{Platforms: true, Unicode: rapid.IntRange(0, 2).Draw(t, "u") == 0, Sized: true, Long: true}, []int{0, 1, 3, 10, 1})
 		db := gen.Load(t, cmds)
 		q, qc := gen.Query(t, cmds, []gen.QueryClass{"vocab", "vocab", "nlp", "nlp", "typo", "typo", "typo", "typo", "fragment", "fragment", "one", "mixed", "unicode", "long"})
 		warmUp(t, db, cmds)
